@@ -76,15 +76,19 @@ class Vec3d:
             return NotImplemented
     
     def rotate(self, q):
+        from ctypes import byref
+        from . import clibrebound
+        from .rotation import Rotation
         if not isinstance(q, Rotation):
             raise NotImplementedError
-        clibrebound.reb_vec3d_irotate(byref(_vec3d), q)
+        clibrebound.reb_vec3d_irotate(byref(self._vec3d), q)
         return self
 
     def normalize(self):
+        from . import clibrebound
         clibrebound.reb_vec3d_normalize.restype = Vec3dBasic
         r = clibrebound.reb_vec3d_normalize(self._vec3d)
-        self._vec3d = r._vec3d
+        self._vec3d = r
         return self
 
     def __getitem__(self, key):
